@@ -53,6 +53,16 @@ CLAIMED = {
    note="trusted: the rounding floor delta = 200*(iters+1)*n*u*(|A||x|/|f| + 1) (x100 for left preconditioning); cases whose floor exceeds a tenth of the tolerance are not judged; real double values only (complex/block systems are not generated); plain aggregation with default over-interpolation is a recorded finding for the convergence clause",
    technique="deterministic simulation: truthfulness invariant over solves executed in simulated thread-count/schedule/heap/reuse worlds, independent long-double residual oracle",
    replay="./build/plain/c01 --replay {path}"),
+ "C11": dict(cat="exploration", ref="4 (C11), 2.5",
+   text="Every number of ranks 1..8 and seeded contiguous partitions (all compositions, empty ranks included) are explored inside a simulated MPI in which ranks are fibers and every message, request and collective is a simulator object: delivery timing faults that a conforming MPI may show (send buffers read as late as the wait, receive buffers poisoned until the wait, rendezvous sends, a stalled rank, shuffled completion order) and seeded rank interleavings; each rank's results are written to harness memory and compared exactly (integer data) with the serial kernels on the assembled matrix; collective scalars must be bitwise identical on all ranks. The no-deadlock detector turns a blocked world into a violation with the blocked call of every rank. Sampling.",
+   note="trusted: the simulated MPI keeps non-overtaking order, matches collectives in call order and reduces in rank order (what mainstream MPIs do); loss/duplication/corruption/rank crashes are not injected because MPI promises reliable delivery; the real OpenMPI is never run",
+   technique="deterministic simulation: simulated MPI (ranks as fibers) with seeded partitions, delivery-timing fault injection and schedule search; serial reference model",
+   replay="./build/plain/c11 --replay {path}"),
+ "C12": dict(cat="exploration", ref="4 (C12), 2.5",
+   text="The distributed coupled solver (mpi::amg through the MPI run-time wrappers, PMIS/aggregation coarsening, nine relaxations, eight solvers, skyline_lu coarse solver, merge repartitioning on and off) runs on 1..8 simulated ranks with seeded row distributions (empty ranks included), seeded rank interleavings and legal delivery-timing faults; oracles: every rank terminates (deadlock detector with the blocked call of each rank), identical (iterations, residual) bits on all ranks, the gathered solution has that true global residual (long double, harness side), convergence on SPD M-matrices. Not decided: the aggregate-partition / R*A*P / coarse-direct-solve clauses of the statement (they need a recording distributed coarsening wrapper that is not built). Sampling.",
+   note="trusted: as C11; partitioners other than merge and direct solvers other than skyline_lu are not available offline; worlds stop at 8 ranks and 900 unknowns; recorded findings for block-local Gauss-Seidel, CG with non-symmetric smoothers and Richardson with plain aggregation",
+   technique="deterministic simulation: simulated MPI with delivery-timing fault injection, deadlock detection, rank-agreement and gathered-residual oracles",
+   replay="./build/plain/c12 --replay {path}"),
 }
 NA_PURE = {
  "C04": "pure function of (matrix, parameters): aggregation is a serial greedy loop, its parallel loops are statically partitioned without reductions; no schedule, fault or history can change the result (thread-count independence of the operators is exercised under C09)",
